@@ -69,4 +69,8 @@ VARIANTS = [
     dict(name="twin: thread id taken once into a local in last_opt", kind="twin", file=R,
          old="        return self._suboptimizers.get(threading.get_ident(), None)",
          new="        me = threading.get_ident()\n        return self._suboptimizers.get(me, None)"),
+    dict(name="round3: seeded random-greedy sub-optimizer kept between queries", kind="break", file="cotengra/pathfinders/path_basic.py",
+         old="        return RandomGreedyOptimizer(**self._suboptimizer_kwargs)\n",
+         new="        opt = self.last_opt\n        if (opt is None) or (self._suboptimizer_kwargs.get(\"seed\") is None):\n            opt = RandomGreedyOptimizer(**self._suboptimizer_kwargs)\n        return opt\n",
+         expect=("C16-FRESH", "ReusableRandomGreedyOptimizer")),
 ]
